@@ -34,8 +34,9 @@
      - the case of every single hexadecimal digit;
      - white space inside a target string after each UTF-16 unit (blanks and ends of line; a %
        inside a string is not a comment, so none there);
-     - whether a single target is written bare or as a one-element array, the blanks after [ and
-       before ];
+     - whether the single target of a range of one code is written bare or as a one-element array
+       (for a longer range the two mean different things: incrementing / indexed), the blanks after
+       [ and before ];
      - the white space inside the CIDSystemInfo dictionary, in front of the file and at its end,
        the size operand of "dict".
    A layout is LINE ORIENTED, like every CMap of the two documents: the tokens of one entry
@@ -134,7 +135,7 @@ Record line_lay := mkLineLay {
   l_gap1 : gap0;                       (* between the first and the second token *)
   l_case2 : list bool;                 (* digits of the second code of a range *)
   l_gap2 : gap0;                       (* between the second code of a bfrange and its target *)
-  l_bracket : bool;                    (* a single target as a one-element array *)
+  l_bracket : bool;                    (* the single target of a one-code range as a one-element array (same meaning) *)
   l_open : gap0;                       (* after [ *)
   l_tgts : list (gap1 * tlay);         (* per target: the blanks in front of it (not used for the first), its layout *)
   l_close : gap0;                      (* before ] *)
@@ -178,7 +179,7 @@ Definition bfrange_line_text (y : line_lay) (x : (N * N * N) * list (list N)) : 
   let '((lo, hi, len), dst) := x in
   range_text y lo hi len ++ blanks (l_gap2 y)
     ++ (match dst with
-        | [t] => if l_bracket y then array_text y dst else target_text (snd (hd tgt_default (l_tgts y))) t
+        | [t] => if l_bracket y && (lo =? hi) then array_text y dst else target_text (snd (hd tgt_default (l_tgts y))) t
         | _ => array_text y dst
         end)
     ++ wbytes1 (l_end y).
@@ -309,3 +310,11 @@ Definition wf_section (s : csection) : Prop :=
   end.
 
 Definition wf_sections (secs : list csection) : Prop := secs <> [] /\ Forall wf_section secs.
+
+(* the ranges of a bfrange section run forwards *)
+Definition forward_section (s : csection) : Prop :=
+  match s with
+  | BfRange l => Forall (fun x : (N * N * N) * list (list N) => fst (fst (fst x)) <= snd (fst (fst x))) l
+  | _ => True
+  end.
+Definition forward_sections (secs : list csection) : Prop := Forall forward_section secs.
